@@ -511,6 +511,18 @@ class StdioClient:
         except Exception as e:
             logger.debug(f"Error during stdio client shutdown: {e}")
 
+        finally:
+            # Outer cancellation (a timeout or a cancelled task group around
+            # the context) is re-raised by the first checkpoint above and
+            # skips the termination: make sure the child never outlives the
+            # context, shielded from that cancellation.
+            if self.process and self.process.returncode is None:
+                try:
+                    with anyio.CancelScope(shield=True):
+                        await self._terminate_process()
+                except Exception as e:
+                    logger.debug(f"Error during stdio client shutdown: {e}")
+
         return False
 
     async def _terminate_process(self) -> None:
